@@ -99,8 +99,11 @@ func rangeKind(head, tail, from, to uint64) string {
 }
 
 type preState struct {
-	obs        Obs
-	img        string
+	obs Obs
+	img string
+	// imgFlushed: the raw image once the pending batch has been written out (nothing else changed);
+	// DeleteRange may flush before it validates the range, which is not an effect on the store's content
+	imgFlushed string
 	head, tail uint64
 	pending    []uint64
 	model      map[uint64]bool
@@ -193,10 +196,15 @@ func c08Run(t *testing.T, run *vk.Run, c c08Case, pre *preState) {
 			}
 			img := vk.ImageHash(w.DS.Image())
 			o := w.Observe()
-			if img != pre.img {
-				viol("rejected-range-had-effect", "datastore image changed although the call failed with: %v", err)
+			if img != pre.img && img != pre.imgFlushed {
+				viol("rejected-range-had-effect", "datastore image changed (beyond writing out the pending batch) although the call failed with: %v", err)
 			}
-			if o.Key() != pre.obs.Key() {
+			// the set of heights still waiting in the write batch is internal (hook) state: DeleteRange
+			// may write the batch out before it validates the range; everything the public API shows
+			// must be unchanged
+			oCmp, preCmp := o, pre.obs
+			oCmp.Pending, preCmp.Pending = nil, nil
+			if oCmp.Key() != preCmp.Key() {
 				viol("rejected-range-had-effect", "observation changed although the call failed with %v:\nbefore %s\nafter  %s", err, pre.obs.Key(), o.Key())
 			}
 			return
@@ -375,6 +383,9 @@ func c08Pre(t *testing.T, run *vk.Run, cfg Cfg, hist []Op, reading bool) *preSta
 			p.model[h] = true
 		}
 		p.obs = w.Observe()
+		// normalise: a rejected call may write the pending batch out
+		_, _ = w.Apply(Op{K: "delete", From: 0, To: 0})
+		p.imgFlushed = vk.ImageHash(w.DS.Image())
 		pre = p
 	})
 	return pre
